@@ -3,6 +3,8 @@ use crate::tab::Tab;
 use crate::tiny::*;
 use constriction::stream::stack::AnsCoder;
 use constriction::stream::{Decode, Encode};
+#[allow(unused_imports)]
+use constriction::stream::TryCodingError;
 use constriction::{CoderError, DefaultEncoderFrontendError, Pos, Seek};
 
 pub type Words = Vec<u128>;
@@ -19,10 +21,14 @@ pub trait AnsDyn {
     /// batch forms (iid, same table): per-symbol results must equal the loop
     fn enc_iid_reverse(&mut self, prec: usize, cdf: &[u64], syms: &[usize]) -> Result<(), String>;
     fn enc_symbols_reverse(&mut self, prec: usize, items: &[(usize, Vec<u64>)]) -> Result<(), String>;
-    fn try_enc_symbols_reverse(&mut self, prec: usize, items: &[(usize, Vec<u64>)]) -> Result<(), String>;
+    /// `err_at`: the iterator yields `Err(())` instead of item number `err_at`
+    fn try_enc_symbols_reverse(&mut self, prec: usize, items: &[(usize, Vec<u64>)], err_at: Option<usize>) -> Result<(), String>;
+    fn enc_symbols(&mut self, prec: usize, items: &[(usize, Vec<u64>)]) -> Result<(), String>;
+    fn try_enc_symbols(&mut self, prec: usize, items: &[(usize, Vec<u64>)], err_at: Option<usize>) -> Result<(), String>;
+    fn enc_iid(&mut self, prec: usize, cdf: &[u64], syms: &[usize]) -> Result<(), String>;
     fn dec_iid(&mut self, prec: usize, cdf: &[u64], n: usize) -> Vec<usize>;
     fn dec_symbols(&mut self, prec: usize, tabs: &[Vec<u64>]) -> Vec<usize>;
-    fn try_dec_symbols(&mut self, prec: usize, tabs: &[Vec<u64>]) -> Vec<usize>;
+    fn try_dec_symbols(&mut self, prec: usize, tabs: &[Vec<u64>], err_at: Option<usize>) -> Vec<Result<usize, String>>;
     fn into_compressed(self: Box<Self>) -> Words;
     fn into_binary(self: Box<Self>) -> Result<Words, ()>;
     fn get_compressed(&mut self) -> Words;
@@ -69,8 +75,17 @@ macro_rules! ans_inst {
             fn enc_symbols_reverse(&mut self, prec: usize, items: &[(usize, Vec<u64>)]) -> Result<(), String> {
                 match prec { $($P => self.0.encode_symbols_reverse(items.iter().map(|(s, c)| (*s, Tab::<$W, $P>::new(c)))).map_err(enc_err),)* _ => panic!("unsupported precision {}", prec) }
             }
-            fn try_enc_symbols_reverse(&mut self, prec: usize, items: &[(usize, Vec<u64>)]) -> Result<(), String> {
-                match prec { $($P => self.0.try_encode_symbols_reverse(items.iter().map(|(s, c)| Ok::<_, ()>((*s, Tab::<$W, $P>::new(c))))).map_err(|e| format!("{:?}", e)),)* _ => panic!("unsupported precision {}", prec) }
+            fn try_enc_symbols_reverse(&mut self, prec: usize, items: &[(usize, Vec<u64>)], err_at: Option<usize>) -> Result<(), String> {
+                match prec { $($P => self.0.try_encode_symbols_reverse(items.iter().enumerate().map(|(i, (s, c))| if Some(i) == err_at { Err(()) } else { Ok::<_, ()>((*s, Tab::<$W, $P>::new(c))) })).map_err(|e| format!("{:?}", e)),)* _ => panic!("unsupported precision {}", prec) }
+            }
+            fn enc_symbols(&mut self, prec: usize, items: &[(usize, Vec<u64>)]) -> Result<(), String> {
+                match prec { $($P => self.0.encode_symbols(items.iter().map(|(s, c)| (*s, Tab::<$W, $P>::new(c)))).map_err(enc_err),)* _ => panic!("unsupported precision {}", prec) }
+            }
+            fn try_enc_symbols(&mut self, prec: usize, items: &[(usize, Vec<u64>)], err_at: Option<usize>) -> Result<(), String> {
+                match prec { $($P => self.0.try_encode_symbols(items.iter().enumerate().map(|(i, (s, c))| if Some(i) == err_at { Err(()) } else { Ok::<_, ()>((*s, Tab::<$W, $P>::new(c))) })).map_err(|e| format!("{:?}", e)),)* _ => panic!("unsupported precision {}", prec) }
+            }
+            fn enc_iid(&mut self, prec: usize, cdf: &[u64], syms: &[usize]) -> Result<(), String> {
+                match prec { $($P => self.0.encode_iid_symbols(syms, Tab::<$W, $P>::new(cdf)).map_err(enc_err),)* _ => panic!("unsupported precision {}", prec) }
             }
             fn dec_iid(&mut self, prec: usize, cdf: &[u64], n: usize) -> Vec<usize> {
                 match prec { $($P => self.0.decode_iid_symbols(n, Tab::<$W, $P>::new(cdf)).map(|r| r.unwrap()).collect(),)* _ => panic!("unsupported precision {}", prec) }
@@ -78,8 +93,8 @@ macro_rules! ans_inst {
             fn dec_symbols(&mut self, prec: usize, tabs: &[Vec<u64>]) -> Vec<usize> {
                 match prec { $($P => self.0.decode_symbols(tabs.iter().map(|c| Tab::<$W, $P>::new(c))).map(|r| r.unwrap()).collect(),)* _ => panic!("unsupported precision {}", prec) }
             }
-            fn try_dec_symbols(&mut self, prec: usize, tabs: &[Vec<u64>]) -> Vec<usize> {
-                match prec { $($P => self.0.try_decode_symbols(tabs.iter().map(|c| Ok::<_, ()>(Tab::<$W, $P>::new(c)))).map(|r| r.unwrap()).collect(),)* _ => panic!("unsupported precision {}", prec) }
+            fn try_dec_symbols(&mut self, prec: usize, tabs: &[Vec<u64>], err_at: Option<usize>) -> Vec<Result<usize, String>> {
+                match prec { $($P => self.0.try_decode_symbols(tabs.iter().enumerate().map(|(i, c)| if Some(i) == err_at { Err(()) } else { Ok::<_, ()>(Tab::<$W, $P>::new(c)) })).map(|r| r.map_err(|e| format!("{:?}", e))).collect(),)* _ => panic!("unsupported precision {}", prec) }
             }
             fn into_compressed(self: Box<Self>) -> Words { self.0.into_compressed().unwrap().into_iter().map(|w| w.to_u128()).collect() }
             fn into_binary(self: Box<Self>) -> Result<Words, ()> { self.0.into_binary().map(|v| v.into_iter().map(|w| w.to_u128()).collect()).map_err(|_| ()) }
